@@ -774,7 +774,7 @@ def check_constant(chk, prog, LOCATION, SCALE):
                 problems.append(f"n={size}: raises {e}")
                 continue
             except Undecided as e:
-                if size == "1 among NaN" and "None" in str(e):
+                if size in ("1 among NaN", "all NaN") and "None" in str(e):
                     # a missing value took part in the estimator's arithmetic: it was not stripped first
                     problems.append(f"{size}: a NaN reaches the estimator body ({e})")
                     continue
